@@ -23,7 +23,9 @@ def configs(tier):
                 out.append(mk([], nca=1, cases=[[v] for v in range(1, n + 1)], kind="samples", bmode=bmode, bval=bval,
                               farmer="sampler", bwhere="ctor"))
             else:
-                out.append(mk([n], kind="combos", bmode=bmode, bval=bval, farmer=farmer, shufSow=[-1, 1][i % 2],
+                # shuffle given to the constructor, to the sow call, to both (the call wins), or not at all
+                sc, ss = [(0, -1), (0, 1), (1, -1), (0, 2), (2, 1), (0, 0)][i % 6]
+                out.append(mk([n], kind="combos", bmode=bmode, bval=bval, farmer=farmer, shufCtor=sc, shufSow=ss,
                               bwhere=("ctor", "sow")[i % 2]))
     out.append(mk([2], nca=1, cases=[[1], [3]], kind="combos", bmode="count", bval=3))
     out.append(mk([], nca=2, cases=[[1, 1], [2, 2], [1, 2]], kind="cases", bmode="size", bval=2, shufCtor=1))
